@@ -496,3 +496,21 @@ func constantUint(v constant.Value) (uint64, bool) {
 	}
 	return 0, false
 }
+
+// GoVersionAtLeast reports whether the module's go directive (go.mod in the analysed repository) is >= major.minor.
+func (p *GoProg) GoVersionAtLeast(major, minor int) bool {
+	data, err := os.ReadFile(filepath.Join(p.Repo, "go.mod"))
+	if err != nil {
+		return false
+	}
+	for _, ln := range strings.Split(string(data), "\n") {
+		f := strings.Fields(ln)
+		if len(f) == 2 && f[0] == "go" {
+			var a, b int
+			if n, _ := fmt.Sscanf(f[1], "%d.%d", &a, &b); n == 2 {
+				return a > major || (a == major && b >= minor)
+			}
+		}
+	}
+	return false
+}
